@@ -56,14 +56,14 @@ def _run_sym(env, tool, args, fs):
     def hook(interp, func, bound):
         # assumed contracts of the two external I/O functions (DESIGN A3): whole-file read / write on the ghost filesystem
         if func.key == READ_KEY:
-            p = bound["filename"]
+            p = interp._fskey(bound["filename"])
             if p not in interp.fs:
                 raise PyRaise(interp.mk_exc("FileNotFoundError", "[Errno 2] No such file or directory: '%s'" % p))
             return True, list(interp.fs[p])
         if func.key == WRITE_KEY:
             data = list(interp.iterate(bound["buffer"]))
-            interp.fs[bound["filename"]] = data
-            interp.fs_writes.append((bound["filename"], data))
+            interp.fs[interp._fskey(bound["filename"])] = data
+            interp.fs_writes.append((interp._fskey(bound["filename"]), data))
             return True, None
         if old_hook is not None:
             return old_hook(interp, func, bound)
